@@ -293,7 +293,7 @@ def structural_designs() -> Iterator[Tuple[str, dict]]:
         yield (f"pref-bus-child-{variant}", {"bundles": B(), "modules": [copy.deepcopy(child), top], "top": "T"})
 
     # --- no-connects --------------------------------------------------------------------------------
-    for variant in ("fresh", "shared", "named", "two-named", "bus", "bundle-port"):
+    for variant in ("fresh", "shared", "named", "two-named", "shared-named", "bus", "bundle-port"):
         insts = []
         mods = []
         if variant == "bundle-port":
@@ -305,7 +305,7 @@ def structural_designs() -> Iterator[Tuple[str, dict]]:
         else:
             for k in range(3):
                 nc = {"fresh": ["nc", k, None], "shared": ["nc", 0, None], "named": ["nc", k, f"open{k}"],
-                      "two-named": ["nc", k, f"open{k % 2}" if k < 2 else None], "bus": ["nc", k, None]}[variant]
+                      "two-named": ["nc", k, "open" if k < 2 else None], "shared-named": ["nc", 0, "opn"], "bus": ["nc", k, None]}[variant]
                 if variant == "bus":
                     insts.append(_inst(f"i{k}", L("E3"), {"p": nc, "q": S("bus"), "r": S("g")}, tag=k))
                 else:
@@ -444,7 +444,7 @@ def structural_designs() -> Iterator[Tuple[str, dict]]:
               insts=[_inst("e", L("E2"), {"x": S("a"), "y": S("b")}, tag=1),
                      _inst("f", L("E2"), {"x": ["bref", "bp", ["y"]], "y": ["bref", "bp", ["x"]]}, tag=2)])
     for n in (1, 2, 3):
-        for aform in ("broadcast", "per-elem", "per-elem-cat", "per-elem-slice", "pref", "pref-from"):
+        for aform in ("broadcast", "per-elem", "per-elem-cat", "per-elem-slice", "per-elem-revslice", "per-elem-revcat", "pref", "pref-from"):
             sigs = [["a2", 2], ["wide", 2 * n], ["b1", 1], ["bn", n], ["big", 2 * n + 2], ["q", 1]]
             conns: Dict[str, Any] = {"bp": ["bun", "bb"]}
             extra = []
@@ -456,6 +456,11 @@ def structural_designs() -> Iterator[Tuple[str, dict]]:
                 conns.update({"a": ["cat"] + [S("a2")] * n if n > 1 else S("a2"), "b": ["cat"] + [S("q")] * n if n > 1 else S("q")})
             elif aform == "per-elem-slice":
                 conns.update({"a": ["slice", S("big"), [1, 2 * n + 1, None]], "b": ["slice", S("big"), [0, n, None]]})
+            elif aform == "per-elem-revslice":  # a reversed slice, split across the elements
+                conns.update({"a": ["slice", S("big"), [2 * n, 0, -1]], "b": ["slice", S("big"), [n - 1, None, -1]] if n > 1 else S("q")})
+            elif aform == "per-elem-revcat":
+                conns.update({"a": ["slice", ["cat", S("a2"), S("wide")], [None, None, -1]] if False else ["slice", ["cat", S("q"), S("wide")], [2 * n, 0, -1]],
+                              "b": S("b1")})
             elif aform == "pref":  # array port fed by a port reference to a single instance
                 conns.update({"a": ["pref", "src", "x"], "b": ["pref", "src", "y"]})
                 extra.append(_inst("src", L("E2"), {}, tag=7))
